@@ -15,6 +15,7 @@ import (
 	"errors"
 	"fmt"
 	"os"
+	"path/filepath"
 	"sort"
 	"strings"
 	"sync"
@@ -22,12 +23,21 @@ import (
 	"time"
 
 	"github.com/onsi/gomega"
+	"github.com/synnaxlabs/aspen"
+	aspentransmock "github.com/synnaxlabs/aspen/transport/mock"
 	"github.com/synnaxlabs/synnax/pkg/distribution"
 	"github.com/synnaxlabs/synnax/pkg/distribution/channel"
 	"github.com/synnaxlabs/synnax/pkg/distribution/framer"
+	"github.com/synnaxlabs/synnax/pkg/distribution/framer/deleter"
+	"github.com/synnaxlabs/synnax/pkg/distribution/framer/iterator"
+	"github.com/synnaxlabs/synnax/pkg/distribution/framer/relay"
+	"github.com/synnaxlabs/synnax/pkg/distribution/framer/writer"
 	"github.com/synnaxlabs/synnax/pkg/distribution/mock"
 	"github.com/synnaxlabs/synnax/pkg/distribution/node"
+	tmock "github.com/synnaxlabs/synnax/pkg/distribution/transport/mock"
+	"github.com/synnaxlabs/synnax/pkg/storage"
 	"github.com/synnaxlabs/synnax/pkg/storage/ts"
+	"github.com/synnaxlabs/x/address"
 	"github.com/synnaxlabs/x/control"
 	"github.com/synnaxlabs/x/telem"
 	xtypes "github.com/synnaxlabs/x/types"
@@ -45,11 +55,15 @@ type scenario struct {
 	seed  []string // ops applied before exploration starts
 	ops   string   // alphabet selector
 	limit int      // channel limit enforced by the overflow check (0 = none)
+	disk  bool     // one node on a real directory whose services can be restarted
 }
 
 type sys struct {
 	sc       scenario
 	c        *mock.Cluster
+	single   mock.Node // disk scenarios: the one node
+	dir      string
+	restarts int
 	refs     []channel.Key        // keys in order of first issue
 	issued   map[channel.Key]bool // every key a create ever returned as new
 	deleted  map[channel.Key]bool // keys whose delete succeeded
@@ -120,7 +134,20 @@ func newSys(sc scenario) (seqx.Sys, error) { return newSysMode(sc, false) }
 
 func newSysMode(sc scenario, confirm bool) (seqx.Sys, error) {
 	s := &sys{sc: sc, confirm: confirm, issued: map[channel.Key]bool{}, deleted: map[channel.Key]bool{}}
-	if sc.limit > 0 {
+	if sc.disk {
+		if err := os.MkdirAll(vk.Root()+"/build/tmp", 0o755); err != nil {
+			return nil, err
+		}
+		dir, err := os.MkdirTemp(vk.Root()+"/build/tmp", "c15-node-")
+		if err != nil {
+			return nil, err
+		}
+		s.dir = dir
+		if err := s.openDisk(); err != nil {
+			_ = os.RemoveAll(dir)
+			return nil, err
+		}
+	} else if sc.limit > 0 {
 		lim := sc.limit
 		s.c = mock.ProvisionCluster(ctx, sc.nodes, distribution.LayerConfig{TestingIntOverflowCheck: func(c xtypes.Uint20) error {
 			if int(c) > lim {
@@ -140,13 +167,72 @@ func newSysMode(sc scenario, confirm bool) (seqx.Sys, error) {
 }
 
 func (s *sys) Close() {
+	if s.sc.disk {
+		if !s.poisoned {
+			_ = s.closeDisk()
+		}
+		_ = os.RemoveAll(s.dir)
+		return
+	}
 	if s.poisoned {
 		return
 	}
 	_ = s.c.Close()
 }
 
-func (s *sys) nd(k int) mock.Node { return s.c.Nodes[node.Key(k)] }
+func (s *sys) nd(k int) mock.Node {
+	if s.sc.disk {
+		return s.single
+	}
+	return s.c.Nodes[node.Key(k)]
+}
+
+type frameTransport struct {
+	iter    iterator.Transport
+	writer  writer.Transport
+	relay   relay.Transport
+	deleter deleter.Transport
+}
+
+func (m frameTransport) Iterator() iterator.Transport { return m.iter }
+func (m frameTransport) Writer() writer.Transport     { return m.writer }
+func (m frameTransport) Relay() relay.Transport       { return m.relay }
+func (m frameTransport) Deleter() deleter.Transport   { return m.deleter }
+
+// openDisk starts the storage and distribution services of a single-node cluster on the
+// directory s.dir; calling it again after closeDisk is a restart of the node's services.
+func (s *sys) openDisk() error {
+	store, err := storage.OpenLayer(ctx, storage.LayerConfig{InMemory: new(false), Dirname: s.dir})
+	if err != nil {
+		return fmt.Errorf("open storage: %w", err)
+	}
+	addr := address.NewLocalFactory(0).Next()
+	dist, err := distribution.OpenLayer(ctx, distribution.LayerConfig{
+		Storage: store,
+		FrameTransport: frameTransport{
+			iter:    tmock.NewIteratorNetwork().New(addr, 1),
+			writer:  tmock.NewWriterNetwork().New(addr, 1),
+			relay:   tmock.NewRelayNetwork().New(addr, 1),
+			deleter: tmock.NewDeleterNetwork().New(addr),
+		},
+		ChannelTransport:     tmock.NewChannelNetwork().New(addr),
+		AspenTransport:       aspentransmock.NewNetwork().NewTransport(),
+		AdvertiseAddress:     addr,
+		AspenOptions:         []aspen.Option{aspen.WithPropagationConfig(aspen.FastPropagationConfig)},
+		EnableServiceSignals: new(false),
+	})
+	if err != nil {
+		_ = store.Close()
+		return fmt.Errorf("open distribution: %w", err)
+	}
+	s.single = mock.Node{Layer: dist, Storage: store}
+	return nil
+}
+
+func (s *sys) closeDisk() error {
+	err := s.single.Layer.Close()
+	return errors.Join(err, s.single.Storage.Close())
+}
 
 // ---- real state readers
 
@@ -335,6 +421,11 @@ func (s *sys) Ops() []string {
 				fmt.Sprintf("mk %d F fvir a ow", g), fmt.Sprintf("mk %d F fvir b rin", g),
 				fmt.Sprintf("mkb %d rin-leased", g), fmt.Sprintf("mkb %d rin-free", g), fmt.Sprintf("mk %d F fvir c -", g))
 		}
+	case "restarts":
+		ops = append(ops, "mk 1 1 vir a -", "mk 1 1 idx b -", "mk 1 1 dat c -", "mk 1 F fvir d -", "mkb 1 mixed")
+		if s.restarts < 2 {
+			ops = append(ops, "restart 1")
+		}
 	case "pairs":
 		// two writer calls staged in one caller-owned transaction, committed together
 		for _, g := range gws {
@@ -474,6 +565,8 @@ func (s *sys) Apply(op string) (obs string, err error) {
 		s.lastOp = "rename"
 	case "txp":
 		s.lastOp = "pair"
+	case "restart":
+		s.lastOp = "restart"
 	default:
 		s.lastOp = "delete"
 	}
@@ -626,6 +719,17 @@ func (s *sys) Apply(op string) (obs string, err error) {
 				obs += ":renamed-deleted-channel"
 			}
 		}
+	case "restart":
+		s.restarts++
+		if err := s.closeDisk(); err != nil {
+			s.poisoned = true
+			return "", vk.Violationf("restart:close-fails", "%s: closing the node's services failed: %v", op, err)
+		}
+		if err := s.openDisk(); err != nil {
+			s.poisoned = true
+			return "", vk.Violationf("restart:open-fails", "%s: the node's services do not start on their own directory: %v", op, err)
+		}
+		obs = "ok"
 	case "txp":
 		// Both calls see what the other staged: a name taken earlier in the transaction is
 		// taken, a name freed earlier in it is free. A refused second call stages nothing; the
@@ -944,6 +1048,12 @@ func main() {
 			time.Sleep(5 * time.Second)
 		}
 	}()
+	// directories of disk-backed instances a killed run left behind
+	if old, _ := filepath.Glob(vk.Root() + "/build/tmp/c15-node-*"); len(old) > 0 {
+		for _, d := range old {
+			_ = os.RemoveAll(d)
+		}
+	}
 	var scs []scenario
 	seedIdx := []string{"mk 1 1 idx a -"}
 	if r.Quick() {
@@ -955,6 +1065,7 @@ func main() {
 			{name: "2 nodes, kinds from an index, tx", nodes: 2, tx: true, depth: 3, ops: "kinds", seed: seedIdx},
 			{name: "2 nodes, batches, direct", nodes: 2, depth: 2, ops: "batches"},
 			{name: "1 node, two calls in one transaction", nodes: 1, tx: true, depth: 3, ops: "pairs"},
+			{name: "1 node on disk, service restarts", nodes: 1, disk: true, depth: 3, ops: "restarts"},
 		}
 	} else {
 		scs = []scenario{
@@ -971,6 +1082,8 @@ func main() {
 			{name: "3 nodes, kinds, tx", nodes: 3, tx: true, depth: 2, ops: "kinds", seed: seedIdx},
 			{name: "1 node, two calls in one transaction", nodes: 1, tx: true, depth: 4, ops: "pairs"},
 			{name: "2 nodes, two calls in one transaction", nodes: 2, tx: true, depth: 3, ops: "pairs"},
+			{name: "1 node on disk, service restarts", nodes: 1, disk: true, depth: 4, ops: "restarts"},
+			{name: "1 node on disk, service restarts, tx", nodes: 1, disk: true, tx: true, depth: 4, ops: "restarts"},
 		}
 	}
 	mk := func(sc scenario) seqx.Config {
@@ -1014,6 +1127,6 @@ func main() {
 		r.Set("exhaustive", false) // states whose judgement was left open by slow gossip
 	}
 	r.Set("rule", "BFS over single creates (index, data on the leaseholder's first index, leased virtual, free virtual, calculated; retrieve-if-exists / overwrite), batched creates (mixed kinds, two leaseholders, duplicate names, invalid name, missing index first/last, failing peer / failing gateway part), renames (single, batched), deletes (single, batched in both orders) through every gateway, directly or in a transaction committed on success; dedup on the real state (every node's metadata view + every engine's channel list + issued/deleted keys); after every transition: all nodes list the same channels, names unique and valid, keys embed the leaseholder and are never reused, per leaseholder metadata == engine (key, name, data type, index, virtual), deleted channels are not retrievable, writable or readable through any node nor present in the engine")
-	r.Assume("in-memory cluster of core/pkg/distribution/mock (real aspen gossip with the fast propagation config, real cesium on memory file systems, in-memory transports); engine channel lists are obtained by probing every key of the issued range (+4) per leaseholder; service restarts are not exercised (the mock cluster cannot reopen a node)")
+	r.Assume("in-memory cluster of core/pkg/distribution/mock (real aspen gossip with the fast propagation config, real cesium on memory file systems, in-memory transports); engine channel lists are obtained by probing every key of the issued range (+4) per leaseholder; service restarts are exercised on a single node whose storage is a real directory (the in-memory mock cluster cannot reopen a node)")
 	r.Finish()
 }
